@@ -998,7 +998,7 @@ namespace Dune
         !tmpIterators.isAtEnd() && tmpIterators.globalIndexPair() == globalPair;
         ++tmpIterators)
       //entry already exists with the same attribute
-      if(tmpIterators.globalIndexPair().second == attribute) {
+      if(tmpIterators.remoteIndex().attribute() == attribute) {
         indexIsThere=true;
         break;
       }
